@@ -56,11 +56,49 @@ def ensure_env():
     logging.disable(logging.CRITICAL)
 
 
+def _blame(exc):
+    """an exception that escaped check.run(): None if the harness is to blame, else the mapproxy function it came out of.
+    It is the code under test's exception when it passed through mapproxy frames, no frame of a check lies below the
+    innermost mapproxy frame (a stub called by mapproxy that blew up is a harness error), and frames of the simulator
+    below it only ever raise OSError (a simulated errno is part of the environment; anything else is a simulator bug)."""
+    import mapproxy
+    mp = os.path.realpath(os.path.dirname(mapproxy.__file__)) + os.sep
+    here = os.path.realpath(os.path.dirname(os.path.dirname(os.path.abspath(__file__)))) + os.sep
+    frames = traceback.extract_tb(exc.__traceback__)
+    last_mp = None
+    for i, fr in enumerate(frames):
+        if os.path.realpath(fr.filename).startswith(mp) and os.sep + 'test' + os.sep not in fr.filename:
+            last_mp = i
+    if last_mp is None:
+        return None
+    for fr in frames[last_mp + 1:]:
+        fn = os.path.realpath(fr.filename)
+        if fn.startswith(here + 'checks' + os.sep):
+            return None
+        if fn.startswith(here + 'simkit' + os.sep) and not isinstance(exc, OSError):
+            return None
+    fr = frames[last_mp]
+    return '%s:%s' % (os.path.basename(fr.filename), fr.name)
+
+
 def run_one(check, sc, tape):
     """returns (result, error_text_or_None)"""
     try:
         res = check.run(sc, tape)
         return res, None
+    except Exception as exc:
+        where = None
+        try:
+            where = _blame(exc)
+        except Exception:    # noqa
+            pass
+        if where is None:
+            return None, traceback.format_exc()
+        # the code under test raised something no oracle of the check expected: a verdict, not a harness error
+        return {'violation': {'sig': '%s:unexpected-exception:%s:%s' % (check.PROP, type(exc).__name__, where),
+                              'msg': 'the code under test raised %r\n%s' % (exc, ''.join(traceback.format_tb(exc.__traceback__)[-6:]))},
+                'digest': 'exc:%s:%s' % (type(exc).__name__, where), 'nontrivial': False, 'steps': 0, 'sim_time': 0.0,
+                'faults': {}, 'probes': {'unexpected_exceptions': 1}}, None
     except BaseException:    # noqa - harness error, never a verdict
         return None, traceback.format_exc()
 
